@@ -16,15 +16,19 @@ RULE = ('E2 explicit-state exploration of the sans-io receive loop: a peer '
         'up to two frames ahead is explored with the transitions receive-a-'
         'byte / try-decode; invariant: once r reaches the next boundary the '
         'decode result is exactly frame k (consumed, channel, content per the '
-        'reference decoder) for every r. Plus every corpus frame x 9 trailing '
-        'strings, and the envelope clause on every input of the E4 spaces '
+        'reference decoder) for every r. Plus every corpus frame x 9 fixed '
+        'trailing strings and the trailers derived from the frame itself '
+        '(the frames that may follow it: content header with class 60 / the '
+        'frame\'s class / foreign classes, body, methods, heartbeat, on the '
+        'same and on another channel, well-formed, malformed and cut; 44 '
+        'for the representative frames, 7 for all others), and the envelope clause on every input of the E4 spaces '
         'that decodes successfully. A state is (sequence, c, r) / (frame, '
         'trailer) / input; non-trivial = a successful decode with trailing '
         'bytes or an envelope check performed.')
 BOUNDS = {'quick': {'sequence_length': 3, 'lookahead_frames': 2,
-                    'trailers': 9},
+                    'trailers': '9 fixed + 7..44 derived'},
           'thorough': {'sequence_length': 4, 'lookahead_frames': 2,
-                       'trailers': 9}}
+                       'trailers': '9 fixed + 7..44 derived'}}
 ASSUMPTIONS = ['unmarshal is a pure function of its argument (established '
                'by C16), which is what collapses all chunkings to (c, r) '
                'pairs', 'frames come from the reference encoder']
@@ -36,6 +40,51 @@ TRAILERS = [b'', b'\xce', b'AMQP', b'AMQP\x00\x00\x09\x01',
 
 _KSEQ = None
 _REF = {}
+_REL = {}
+
+
+def related_trailers(data, full):
+    """What a peer plausibly sends NEXT, derived from the first frame: the
+    frames that follow a method in a content exchange (header, body) and
+    other frames on the same and on another channel, with the class ids a
+    decoder might be tempted to cross-check (that of the first frame, 60,
+    others), well-formed and malformed, whole and cut; and a copy of the
+    first frame itself.  None of it may influence the first result."""
+    if data[:4] == b'AMQP':
+        ch = 0
+    else:
+        ch = struct.unpack('>H', data[1:3])[0]
+    cls = data[7:9] if data[0:1] in (b'\x01', b'\x02') and len(data) > 9 \
+        else b'\x00\x3c'
+    key = (ch, cls, full)
+    if key in _REL:
+        return _REL[key] + [data, data[:-1] + b'\x00']
+    M = corpus.spec_table.BY_NAME
+    out = []
+    chans = [ch, (ch + 1) & 0xFFFF]
+    for c in chans if full else chans[:1]:
+        hdr = refcodec.enc_header_frame(5, {'content_type': 'a'}, c)[0]
+        out.append(hdr)                                     # class 60
+        for foreign in ([b'\x00\x32', b'\x00\x00', b'\xff\xff', cls]
+                        if full else [b'\x00\x32']):
+            out.append(hdr[:7] + foreign + hdr[9:])          # other class id
+        out.append(refcodec.enc_body_frame(b'body\xce', c)[0])
+        out.append(refcodec.enc_method_frame(
+            M['Basic.Publish'], (0, 'e', 'k', False, False), c)[0])
+        if full:
+            out.append(refcodec.enc_method_frame(M['Basic.Ack'], (1, False),
+                                                 c)[0])
+            out.append(refcodec.enc_heartbeat_frame(c)[0])
+            # malformed followers
+            out.append(hdr[:-1] + b'\x00')                   # bad end octet
+            out.append(hdr[:3] + b'\x00\x00\x00\x02' + hdr[7:9] + b'\xce')
+            out.append(b'\x01' + hdr[1:3] + b'\x00\x00\x00\x04\xff\xff\xff'
+                       b'\xff\xce')                         # unknown method
+            out.append(b'\x07' + hdr[1:])                    # unknown type
+            for cut in (7, 8, 9, 11, 12, len(hdr) - 1):
+                out.append(hdr[:cut])                        # incomplete
+    _REL[key] = out
+    return out + [data, data[:-1] + b'\x00']
 
 
 def kseq():
@@ -144,14 +193,14 @@ def explore_sequence(ctx, seq):
                       len(seq), n)
 
 
-def check_trailers(ctx, label, data):
+def check_trailers(ctx, label, data, full=True):
     try:
         ref = refcodec.dec_frame(data)
     except refcodec.RefError:
         return
     if any(lib.has_unrepresentable(v) for v in (ref.get('args') or [])):
         return
-    for t in TRAILERS:
+    for t in TRAILERS + related_trailers(data, full):
         ctx.case((data, t), bool(t), sample=lambda: {
             'frame': label, 'trailer': t.hex()})
         decode_at(ctx, data + t, label + ' + trailer ' + t.hex(), ref,
@@ -223,7 +272,7 @@ def run(task, ctx):
                                                  ctx.seed):
             if len(data) > 5000:
                 continue
-            check_trailers(ctx, label, data)
+            check_trailers(ctx, label, data, full=task[1] in ('rep', 'misc'))
     else:
         ctx.rearm(4)
         for label, data in fuzzspace.inputs(task[1:], ctx.tier, ctx.seed):
